@@ -163,6 +163,7 @@ CHECKS = {
         "units": [
             unit("small-paths", "^TestC02SmallPaths$", 0, 0, shards=(8, 8)),
             unit("paths", "^TestC02$", 100, 2500),
+            unit("comparisons", "^TestC02Comparison$", 60, 1500),
         ],
     },
     "C16": {
